@@ -60,15 +60,18 @@ Proof.
 Qed.
 
 Lemma violations_defined f n :
-  f_evcount f = Some n -> violations f = Some (violations_n f n).
-Proof. intros H. unfold violations, lends. rewrite H. reflexivity. Qed.
+  f_evcount f = Some n -> 0 <= n -> violations f = Some (violations_n f n).
+Proof.
+  intros H Hn. unfold violations, lends. rewrite H.
+  destruct (0 <=? n) eqn:E; [reflexivity|lia].
+Qed.
 
 Lemma length_is_event_count f n :
-  f_evcount f = Some n ->
+  f_evcount f = Some n -> 0 <= n ->
   lends f = Some n /\ violations f = Some (violations_n f n).
 Proof.
-  intros H. split; [unfold lends; rewrite H; reflexivity|].
-  apply violations_defined. exact H.
+  intros H Hn. split; [|apply violations_defined; assumption].
+  unfold lends. rewrite H. destruct (0 <=? n) eqn:E; [reflexivity|lia].
 Qed.
 
 Ltac in_viol :=
@@ -112,8 +115,12 @@ Section CUES.
 
   (* the length everything is compared with is the event count of the
      metadata whenever that is stored *)
-  Lemma lends_is_event_count n : f_evcount f = Some n -> lends f = Some n.
-  Proof. intros H. unfold lends. rewrite H. reflexivity. Qed.
+  Lemma lends_is_event_count n :
+    f_evcount f = Some n -> 0 <= n -> lends f = Some n.
+  Proof.
+    intros H Hn. unfold lends. rewrite H.
+    destruct (0 <=? n) eqn:E; [reflexivity|lia].
+  Qed.
 
   Lemma len_mismatch_flagged n ft :
     lends f = Some n -> In ft (f_feats f) -> flen (ft_data ft) <> n ->
@@ -284,8 +291,18 @@ Section CUES.
   Proof.
     intros Hin Hle. destruct (violations_some _ _ Hv) as [m [_ ->]].
     apply coll_gz. unfold check_metadata_bad_greater_zero.
+    apply in_or_app. left.
     apply in_flat_map_intro with (x := (k, Some v)); [exact Hin|].
     cbn [fst snd]. destruct (v <=? 0) eqn:E; [|lia]. left. reflexivity.
+  Qed.
+
+  Lemma negative_event_count_flagged v :
+    f_evcount f = Some v -> v < 0 -> In (NonPositive k_event_count) cs.
+  Proof.
+    intros He Hlt. destruct (violations_some _ _ Hv) as [m [_ ->]].
+    apply coll_gz. unfold check_metadata_bad_greater_zero.
+    apply in_or_app. right. rewrite He.
+    destruct (v <? 0) eqn:E; [left; reflexivity|lia].
   Qed.
 
   Lemma polys_from_in i l j rows cols :
@@ -485,17 +502,17 @@ Proof. intros P. unfold images. apply flat_map_perm. exact P. Qed.
 
 (* the cues do not depend on the order in which the features are stored *)
 Lemma violations_order_independent f g n :
-  same_content f g -> f_evcount f = Some n ->
+  same_content f g -> f_evcount f = Some n -> 0 <= n ->
   exists cf cg, violations f = Some cf /\ violations g = Some cg
                 /\ Permutation cf cg.
 Proof.
-  intros H Hn. pose proof H as H'. unfold same_content in H'.
+  intros H Hn Hn0. pose proof H as H'. unfold same_content in H'.
   destruct H' as (E1 & P & E3 & E4 & E5 & E6 & E7 & E8 & E9 & E10 & E11 & E12
                   & E13 & E14 & E15 & E16 & E17 & E18 & E19 & E20 & E21 & E22
                   & E23 & E24).
   exists (violations_n f n), (violations_n g n).
-  split; [apply violations_defined; exact Hn|].
-  split; [apply violations_defined; congruence|].
+  split; [apply violations_defined; assumption|].
+  split; [apply violations_defined; [congruence|assumption]|].
   assert (FI : forall i, flmax_innate f i = flmax_innate g i).
   { intros i. unfold flmax_innate. apply existsb_perm. exact P. }
   assert (HF : has_fl f = has_fl g).
@@ -529,7 +546,7 @@ Proof.
       apply flat_map_perm; apply images_perm; exact P. }
   assert (Q8 : check_metadata_bad_greater_zero f = check_metadata_bad_greater_zero g).
   { unfold check_metadata_bad_greater_zero, greater_zero_values.
-    rewrite E9, E10, E11, E12. reflexivity. }
+    rewrite E9, E10, E11, E12, E1. reflexivity. }
   assert (Q10 : check_metadata_missing f = check_metadata_missing g).
   { unfold check_metadata_missing, imaging_section, missing_in. rewrite HF, E14.
     rewrite (existsb_ext_in' _ _ _ (fun k _ => KP k)).
